@@ -534,6 +534,14 @@ def gen_history(r, big=False):
                 b = r.choice([p_ for p_ in ps if p_ >= a])
             parts.append([a, None if r.random() < 0.15 else b - a])
         ops[-1].append({"read": mode, "partial": parts})
+    # a server that missed the previous write / a lost share, once per history, right before an update that
+    # follows a content-changing operation (k shares of the current version always remain)
+    if not big and r.random() < 0.3:
+        cands = [j for j in range(1, len(ops)) if ops[j][0] == "update" and ops[j - 1][0] in ("overwrite", "update")]
+        if cands:
+            j = r.choice(cands)
+            what = "stale" if (k >= 2 and r.random() < 0.7) else "drop"
+            ops.insert(j, [what, r.getrandbits(30), {"read": r.choice(["version", "none"]), "partial": []}])
     return {"format": fmt, "k": k, "N": N, "servers": servers, "maxseg": maxseg, "seed": r.getrandbits(30), "init": init, "ops": ops,
             "via_version": r.random() < 0.3}
 
@@ -558,8 +566,37 @@ def run_history(h):
             def record_read(ix, offset, size, o):
                 events.append(("read", ix, offset, size, o.status, o.value if o.status == "ok" else o.error))
             record_read(-1, 0, None, vread(0, None))
+            cap = node.get_uri()
+
+            def snapshot():
+                return {(sh.server, sh.shnum): g.read_share(sh) for sh in g.find_shares(cap)}
+            snapshots = [snapshot()]          # share files after each publish that changed them
             for ix, op in enumerate(h["ops"]):
                 kind = op[0]
+                if kind in ("stale", "drop"):
+                    # not an operation of the writer: a server that missed the last write (its share files are put
+                    # back to the previous version) or lost a share.  The reference byte string does not change.
+                    import random
+                    rr = random.Random(op[1])
+                    cur = {(sh.server, sh.shnum): sh for sh in g.find_shares(cap)}
+                    done = "skipped"
+                    if kind == "stale" and len(snapshots) >= 2:
+                        keys = sorted(kk for kk in snapshots[-2] if kk in cur)
+                        if keys:
+                            kk = keys[rr.randrange(len(keys))]
+                            for k2 in keys:               # every copy of that share number becomes stale
+                                if k2[1] == kk[1]:
+                                    g.write_share(cur[k2], snapshots[-2][k2])
+                            done = "ok"
+                    elif kind == "drop" and cur:
+                        shnums = sorted(set(kk[1] for kk in cur))
+                        g.delete_shares(cap, shnums=[shnums[rr.randrange(len(shnums))]])
+                        done = "ok"
+                    events.append(("op", ix, kind, done, None))
+                    extra = op[-1]
+                    if extra["read"] != "none":
+                        record_read(ix, 0, None, vread(0, None))
+                    continue
                 if kind == "overwrite":
                     if h["via_version"]:
                         d = node.get_best_mutable_version()
@@ -580,6 +617,9 @@ def run_history(h):
                 events.append(("op", ix, kind, o.status, o.error))
                 if o.status != "ok":
                     break
+                snap = snapshot()
+                if snap != snapshots[-1]:
+                    snapshots.append(snap)
                 extra = op[-1]
                 if extra["read"] == "best":
                     record_read(ix, 0, None, g.run(node.download_best_version(), outcome=True))
@@ -615,6 +655,8 @@ def unjson_history(x):
 
 
 def apply_ref(ref, op):
+    if op[0] in ("stale", "drop"):
+        return bytearray(ref)
     if op[0] == "overwrite":
         return bytearray(op[1])
     if op[0] == "modify":
@@ -633,11 +675,19 @@ def judge_history(ctx, h, events, label):
     ref = bytearray(h["init"])
     applied = -1
     lastkind = "create"
+    disturbed = False
     ok = True
     for ev in events:
         if ev[0] == "op":
             _, ix, kind, status, err = ev
+            if kind in ("stale", "drop"):
+                if status == "ok":
+                    lastkind = kind
+                    disturbed = True
+                continue
             lastkind = kind if kind != "update" else ("append" if h["ops"][ix][2] == len(ref) else "update")
+            if disturbed:
+                lastkind += "-with-stale-or-missing-shares"
             if status != "ok":
                 ctx.oracle_fail("operation-failed:%s:%s:%s" % (fmt, lastkind, err),
                                 "%s #%d of the history fails with %s on a fault-free grid (file of %d bytes, segment size %d)"
@@ -683,6 +733,8 @@ def history_term(h, events):
     for ev in events:
         if ev[0] == "op":
             _, ix, kind, status, err = ev
+            if kind in ("stale", "drop"):       # no operation of the writer: reads after it belong to the previous step
+                continue
             cur = [coq_op(h["ops"][ix]), status == "ok", []]
             steps.append(cur)
         else:
@@ -708,16 +760,38 @@ def modify_boundary_history(r, fmt, via_version):
             "init": rbytes(r, r.choice([1, seg, 2 * seg + 1])), "ops": ops, "via_version": via_version}
 
 
+def stale_share_history(r, fmt, via_version):
+    """Fixed shape, run in every tier: overwrite, then one share number falls back to the previous version
+    (or is lost), then updates in the middle / at the end of a multi-segment file, a read after each."""
+    k = r.choice([2, 3])
+    N = k + 2
+    maxseg = r.choice([24, 30])
+    seg = next_multiple(maxseg, k)
+    rd = lambda: {"read": r.choice(["version", "best"]), "partial": [[seg - 1, 2]]}
+    n2 = 3 * seg + r.randrange(1, seg)
+    ops = [["overwrite", rbytes(r, n2), rd()],
+           ["stale", r.getrandbits(30), {"read": "version", "partial": []}],
+           ["update", rbytes(r, seg + 3), seg - 2, rd()],
+           ["update", rbytes(r, 5), n2 - 2, rd()],
+           ["drop", r.getrandbits(30), {"read": "none", "partial": []}],
+           ["update", rbytes(r, 2), 2 * seg, rd()],
+           ["stale", r.getrandbits(30), {"read": "version", "partial": []}],
+           ["update", rbytes(r, seg), n2 + 3, rd()]]
+    return {"format": fmt, "k": k, "N": N, "servers": r.choice([N, N + 1]), "maxseg": maxseg, "seed": r.getrandbits(30),
+            "init": rbytes(r, 2 * seg + 1), "ops": ops, "via_version": via_version}
+
+
 def grid_cases(ctx):
     ctx.correspondence("grid-histories-vs-model")
     terms, info = [], []
     n = ctx.n(60, 600)
     nbig = ctx.n(5, 50)
-    fixed = [(fmt, via) for fmt in ("sdmf", "mdmf") for via in (False, True)]
+    fixed = [(modify_boundary_history, fmt, via) for fmt in ("sdmf", "mdmf") for via in (False, True)]
+    fixed += [(stale_share_history, "mdmf", False), (stale_share_history, "mdmf", True), (stale_share_history, "sdmf", False)]
     for i in range(-len(fixed), n + nbig):
         big = i >= n
         r = ctx.rng("hist", i)
-        h = modify_boundary_history(r, *fixed[i]) if i < 0 else gen_history(r, big=big)
+        h = fixed[i][0](r, *fixed[i][1:]) if i < 0 else gen_history(r, big=big)
         events = run_history(h)
         seg = next_multiple(h["maxseg"], h["k"])
         inplace = sum(1 for op in h["ops"] if op[0] == "update") if h["format"] == "mdmf" else 0
@@ -730,7 +804,9 @@ def grid_cases(ctx):
         # appends/updates that take the segment count across a power of two (block hash tree changes shape)
         cur = len(h["init"])
         for op in h["ops"]:
-            if op[0] == "overwrite":
+            if op[0] in ("stale", "drop"):
+                ctx.count("histories-with-a-stale-or-lost-share:" + op[0])
+            elif op[0] == "overwrite":
                 cur = len(op[1])
             elif op[0] == "modify":
                 cur = len(ref_modifier(op[1], bytes(cur)))
